@@ -105,6 +105,9 @@ pub enum ReplyLine {
     V(Vec<i16>),
     /// value line carrying a non numeric token
     VBad,
+    /// value line carrying one of several malformed tokens (a literal cut after its sign, doubled or
+    /// trailing signs, decimal point, hexadecimal, full-width digit)
+    VBadTok(u8),
     Comment(u8),
     BareC,
     Empty,
@@ -112,6 +115,8 @@ pub enum ReplyLine {
     /// a line that resembles a status / value / comment line without being one
     Stray(u8),
 }
+
+const VBAD: [&str; 9] = ["v -1 2 -", "v 1 - 0", "v 1 -- 0", "v 1 --2 0", "v 1 2- 0", "v 1 1.0 0", "v 1 0x2 0", "v 1 \u{ff12} 0", "v -"];
 
 const STRAY: [&str; 9] = ["v1 -2 0", "version 2", "v0", "vv 1 0", "sSATISFIABLE", "s satisfiable", "o 12", "v1", "s SATISFIABLE!"];
 
@@ -132,6 +137,7 @@ fn reply_text(lines: &[ReplyLine], crlf: bool, final_newline: bool) -> String {
                 s
             }
             ReplyLine::VBad => "v 1 x2 0".into(),
+            ReplyLine::VBadTok(k) => VBAD[*k as usize % VBAD.len()].into(),
             ReplyLine::Comment(k) => format!("c {}", "comment ".repeat(*k as usize % 5)),
             ReplyLine::BareC => "c".into(),
             ReplyLine::Empty => "".into(),
@@ -196,7 +202,7 @@ pub fn ref_reply(lines: &[ReplyLine], nvars: usize) -> RefReply {
                     }
                 }
             }
-            ReplyLine::VBad => return RefReply::Invalid("non-numeric token in value line"),
+            ReplyLine::VBad | ReplyLine::VBadTok(_) => return RefReply::Invalid("non-numeric token in value line"),
             ReplyLine::Garbage | ReplyLine::Stray(_) => return RefReply::Invalid("line outside the output format"),
             ReplyLine::Comment(_) | ReplyLine::BareC | ReplyLine::Empty => {}
         }
@@ -274,7 +280,7 @@ fn reply_lines(nvars: usize) -> BoxedStrategy<Vec<ReplyLine>> {
         1 => Just(2u8), // drop final zero
         1 => Just(3u8), // second zero
         1 => Just(4u8), // out of range literal
-        1 => Just(5u8), // non numeric
+        3 => Just(5u8), // non numeric or malformed token (nine shapes incl. a literal cut after its sign)
         1 => Just(6u8), // second status
         1 => Just(7u8), // garbage line
         1 => Just(8u8), // status unknown
@@ -299,7 +305,7 @@ fn reply_lines(nvars: usize) -> BoxedStrategy<Vec<ReplyLine>> {
                 4 => lines.push(ReplyLine::V(vec![nv + 1 + (r % 3) as i16])),
                 5 => {
                     let p = pos(lines.len() + 1);
-                    lines.insert(p, ReplyLine::VBad)
+                    lines.insert(p, if r % 3 == 0 { ReplyLine::VBad } else { ReplyLine::VBadTok((r / 3) as u8) })
                 }
                 6 => {
                     let p = pos(lines.len() + 1);
